@@ -875,7 +875,7 @@ fn run_tokens(job: &Value) -> Value {
   }
 }
 
-fn format_once(text: &str, name: &str, width: usize) -> Result<(usize, String, Vec<Value>, Value), String> {
+fn format_once(text: &str, name: &str, width: usize) -> Result<(usize, String, Vec<Value>, Value, Value), String> {
   // -> (syntax errors, formatted text, comments referenced from the AST's comment store, import comment texts)
   catch_unwind(AssertUnwindSafe(|| {
     let mut heap = Heap::new();
@@ -896,7 +896,7 @@ fn format_once(text: &str, name: &str, width: usize) -> Result<(usize, String, V
     }
     let n = es.errors().len();
     let out = if n == 0 { samlang_printer::pretty_print_source_module(&heap, width, &m) } else { String::new() };
-    (n, out, store, json!(import_comments))
+    (n, out, store, json!(import_comments), dump_module(&heap, &m))
   }))
   .map_err(panic_msg)
 }
@@ -929,7 +929,7 @@ fn run_inject(job: &Value) -> Value {
       Err(msg) => {
         r.insert("panic".into(), json!(msg));
       }
-      Ok((n, out, store, import_comments)) => {
+      Ok((n, out, store, import_comments, dump0)) => {
         if n > 0 {
           r.insert("status".into(), json!("syntax"));
         } else {
@@ -955,8 +955,9 @@ fn run_inject(job: &Value) -> Value {
           r.insert("same_sequence".into(), json!(same_seq));
           r.insert("others_lost".into(), json!(base_comments.iter().filter(|c| !out_comments.contains(c)).count()));
           match format_once(&out, name, width) {
-            Ok((n2, out2, _, _)) => {
+            Ok((n2, out2, _, _, dump1)) => {
               r.insert("reparse_errors".into(), json!(n2));
+              r.insert("same_tree".into(), json!(dump0 == dump1));
               r.insert("idempotent".into(), json!(n2 == 0 && out2 == out));
             }
             Err(msg) => {
